@@ -72,7 +72,7 @@ W("classify:reclassify", "agg",
 W("classify:quantile", "agg", props=("C10",))
 W("classify:equal_interval", "agg", props=("C12", "C01", "C10"),
   numpy="_run_equal_interval(agg, k, module=np)", dask="_run_equal_interval(agg, k, module=da)")
-W("classify:natural_breaks", "agg", props=("C10",))
+W("classify:natural_breaks", "agg", props=("C12", "C10"), numpy="_run_natural_break(agg, num_sample, k)")
 
 # ---- C09 / C01: halo = kernel half-shape per axis (rows, cols)
 HALO = "(kernel.shape[0] // 2, kernel.shape[1] // 2)"
@@ -110,7 +110,7 @@ W("zonal:crop", "values", identity=False, props=("C18",),
 W("perlin:perlin", "agg", props=("C10",))
 
 # ---- C19: circle / annulus kernels in terms of the (proved) ellipse mask
-OPAQUE_EXTRA = {"convolution:_get_distance", "proximity:_process", "classify:_run_equal_interval"}
+OPAQUE_EXTRA = {"convolution:_get_distance", "proximity:_process", "classify:_run_equal_interval", "classify:_run_natural_break"}
 _R = "_get_distance(str(%s))"
 _CK = "_ellipse_kernel(int(%s / cellsize_x), int(%s / cellsize_y))"
 W("convolution:circle_kernel", None, identity=False, props=("C19",),
